@@ -210,17 +210,22 @@ Definition refines_to (g : graph) (labels : list nat) (u v : nat) : Prop :=
 (** * 4. The computable hypothesis of the partial theorems
 
     Equality of multisets of naturals. *)
+Definition countb (x : nat) (l : list nat) : nat := length (filter (Nat.eqb x) l).
 Definition ms_eqb (a b : list nat) : bool :=
-  forallb (fun x => count_occ Nat.eq_dec a x =? count_occ Nat.eq_dec b x) a &&
-  forallb (fun x => count_occ Nat.eq_dec a x =? count_occ Nat.eq_dec b x) b.
+  forallb (fun x => countb x a =? countb x b) a && forallb (fun x => countb x a =? countb x b) b.
 
-(** No hash collision in one round: two nodes with the same label whose hashes the code may take for
-    equal ([abs(h - h') <= epsilon]) have the same multiset of neighbour labels. *)
+(** No hash collision in one round: two nodes (u < v: the condition is symmetric) with the same label
+    whose hashes the code may take for equal ([abs(h - h') <= epsilon]) have the same multiset of
+    neighbour labels. *)
 Definition no_hash_collision (g : graph) (powers : list Q) (eps : Q) (labels : list nat) : bool :=
-  let h := fun u => wl_hash powers labels (row g u) in
+  let hs := map (fun u => wl_hash powers labels (row g u)) (seq 0 (length g)) in
   forallb (fun u => forallb (fun v =>
-     negb ((nthn labels u =? nthn labels v) && Qle_bool (Qabs (h u - h v)) eps)
-     || ms_eqb (nbr_labels g labels u) (nbr_labels g labels v)) (seq 0 (length g))) (seq 0 (length g)).
+     if u <? v then
+       if nthn labels u =? nthn labels v then
+         if Qle_bool (Qabs (nthq hs u - nthq hs v)) eps
+         then ms_eqb (nbr_labels g labels u) (nbr_labels g labels v) else true
+       else true
+     else true) (seq 0 (length g))) (seq 0 (length g)).
 
 (** ... in every round that [wl_loop] executes. *)
 Fixpoint wl_collision_free (sort : list wtuple -> list wtuple) (g : graph) (powers : list Q) (eps : Q)
@@ -232,6 +237,28 @@ Fixpoint wl_collision_free (sort : list wtuple -> list wtuple) (g : graph) (powe
         no_hash_collision g powers eps labels &&
         (let r := wl_round sort g powers eps labels in
          wl_collision_free sort g powers eps k (fst r) (snd r))
+      else true
+  end.
+
+(** Margin guard of the run-time comparison with the float implementation (not used by any theorem):
+    no two nodes with the same label have [abs(h - h')] within [tol] of epsilon, in every executed
+    round. Then the decisions [abs(h - h') > epsilon] are the same on the exact sums and on the float64
+    sums (which differ from them by a few ulp), hence so are the rank labels. *)
+Definition hash_margin_ok (g : graph) (powers : list Q) (eps tol : Q) (labels : list nat) : bool :=
+  let hs := map (fun u => wl_hash powers labels (row g u)) (seq 0 (length g)) in
+  forallb (fun u => forallb (fun v =>
+     if nthn labels u =? nthn labels v then Qltb tol (Qabs (Qabs (nthq hs u - nthq hs v) - eps)) else true)
+     (seq 0 (length g))) (seq 0 (length g)).
+
+Fixpoint wl_margin_ok (sort : list wtuple -> list wtuple) (g : graph) (powers : list Q) (eps tol : Q)
+         (todo : nat) (labels : list nat) (changed : bool) : bool :=
+  match todo with
+  | O => true
+  | S k =>
+      if changed then
+        hash_margin_ok g powers eps tol labels &&
+        (let r := wl_round sort g powers eps labels in
+         wl_margin_ok sort g powers eps tol k (fst r) (snd r))
       else true
   end.
 
